@@ -406,7 +406,7 @@ def _exempt(ref, sig, det, text, c17_findings):
             names |= {t.string for t in A.real_tokens(ref.src) if t.type == _state["xtok"].NAME}
             t1 = _state["ex"].parse(ref.src, ctx=set(names), filename="<verif>")
             t2 = _state["ex"].parse(text, ctx=set(names), filename="<verif>")
-            if astcanon.root_canon(t1) == astcanon.root_canon(t2):
+            if canon_tree(t1) == canon_tree(t2):
                 return "python-statement-becomes-command-only-under-empty-context"
         except _Timeout:
             raise
@@ -472,10 +472,15 @@ def reduce_source(src, same, seconds=8.0):
     return cur
 
 
+_reduced = {}
+
+
 def settle(st, res, src, family, reduce=True):
-    """Move a Result's failures into Stats; reduce the inputs of unattributed ones."""
+    """Move a Result's failures into Stats; reduce the inputs of unattributed ones (the first two of
+    every bucket in this worker; the rest is reported unreduced and deduplicated by bucket)."""
     for f in res.failures:
-        if f.finding is None and reduce and f.kind != "crash":
+        if f.finding is None and reduce and f.kind != "crash" and _reduced.get(f.bucket, 0) < 2 and sum(_reduced.values()) < 12:
+            _reduced[f.bucket] = _reduced.get(f.bucket, 0) + 1
             want = f.bucket
 
             def same(text, _want=want):
